@@ -157,6 +157,34 @@ def _stale(vo: Path) -> bool:
     return v.exists() and v.stat().st_mtime > vo.stat().st_mtime
 
 
+def gen_cone(targets: list[str]) -> set | None:
+    """names (without .v) of the coq/gen files in the transitive Require cone of the targets (textual scan)"""
+    import re as _re
+    seen, todo, gens = set(), [t[:-3] + ".v" if t.endswith(".vo") else t for t in targets], set()
+    while todo:
+        rel = todo.pop()
+        if rel in seen:
+            continue
+        seen.add(rel)
+        p = COQ / rel
+        if not p.exists():
+            continue
+        txt = p.read_text()
+        for m in _re.finditer(r"(?:From\s+Stab(?:\.(\w+))?\s+)?Require\s+(?:Import|Export)?\s+([^.]*(?:\.[^.\s]+)*)\.", txt):
+            sub, names = m.group(1), m.group(2)
+            for nm in names.split():
+                parts = nm.split(".")
+                if parts[0] == "Stab":
+                    parts = parts[1:]
+                if sub:
+                    parts = [sub] + parts
+                if len(parts) == 2 and parts[0] in ("gen", "model", "proofs", "props"):
+                    if parts[0] == "gen":
+                        gens.add(parts[1])
+                    todo.append(f"{parts[0]}/{parts[1]}.v")
+    return gens
+
+
 def coq_run(vtext: str, name: str, timeout: int = 600) -> tuple[int, str]:
     """Compile a scratch .v file (build/tmp/<name>.v) against the Stab library; return (rc, output)."""
     d = BUILD / "tmp"
